@@ -639,8 +639,43 @@ pub open spec fn lifecycle_post(s: Raw, t: Raw, msg: ExecuteMsg, id: u64) -> boo
         && prop_of(s, id)->Some_0.status != Status::Passed && prop_of(t, id)->Some_0.status == Status::Rejected)
 }
 // serves: C05 C15
-pub proof fn lemma_lifecycle_step(s: Raw, t: Raw, w: int, sender: Addr, funds: Seq<Coin>, b: &BlockInfo, msg: ExecuteMsg, id: u64)
-    requires inv(s), count(s) < u64::MAX, step_msg(s, t, w, sender, funds, b, msg), prop_of(s, id) is Some
+/// one lemma per message variant (each is its own, small SMT query)
+pub proof fn lemma_lifecycle_propose(s: Raw, t: Raw, w: int, sender: Addr, funds: Seq<Coin>, b: &BlockInfo, msg: ExecuteMsg, id: u64)
+    requires inv(s), count(s) < u64::MAX, step_msg(s, t, w, sender, funds, b, msg), prop_of(s, id) is Some, msg is Propose
+    ensures lifecycle_post(s, t, msg, id)
+{
+    broadcast use cw3_axioms;
+    lemma_ns3();
+    let p = prop_of(s, id)->Some_0;
+    assert(prop_inv(s, id, p));
+    let nid = (count(s) + 1) as u64;
+    assert(u64_unkb(u64_kb(nid)) != u64_unkb(u64_kb(id)));
+    assert(unpath(pkey(id)) != unpath(pkey(nid)) && unpath(pkey(id)) != unpath(count_key()) && unpath(pkey(id)) != unpath(bkey(nid, sender@)));
+}
+// serves: C05 C15
+pub proof fn lemma_lifecycle_vote(s: Raw, t: Raw, w: int, sender: Addr, funds: Seq<Coin>, b: &BlockInfo, msg: ExecuteMsg, id: u64)
+    requires inv(s), count(s) < u64::MAX, step_msg(s, t, w, sender, funds, b, msg), prop_of(s, id) is Some, msg is Vote
+    ensures lifecycle_post(s, t, msg, id)
+{
+    broadcast use cw3_axioms;
+    lemma_ns3();
+    let p = prop_of(s, id)->Some_0;
+    assert(prop_inv(s, id, p));
+    let proposal_id = msg->Vote_proposal_id;
+    let vote = msg->Vote_vote;
+    let wt = choose|wt: u64| #![auto] wt >= 1 && snapshot_weight(s, w, proposal_id, sender@, wt)
+        && tally_no_overflow(prop_of(s, proposal_id)->Some_0.votes, vote, wt) && t == vote_result(s, proposal_id, sender@, vote, wt, b);
+    lemma_vote_preserves(s, proposal_id, sender@, vote, wt, b);
+    if proposal_id != id {
+        assert(u64_unkb(u64_kb(proposal_id)) != u64_unkb(u64_kb(id)));
+        assert(unpath(pkey(id)) != unpath(pkey(proposal_id)) && unpath(pkey(id)) != unpath(bkey(proposal_id, sender@)));
+    } else {
+        lemma_status_sticky(Proposal { votes: add_vote_spec(p.votes, vote, wt), ..p }, b);
+    }
+}
+// serves: C05 C15
+pub proof fn lemma_lifecycle_execute_close(s: Raw, t: Raw, w: int, sender: Addr, funds: Seq<Coin>, b: &BlockInfo, msg: ExecuteMsg, id: u64)
+    requires inv(s), count(s) < u64::MAX, step_msg(s, t, w, sender, funds, b, msg), prop_of(s, id) is Some, msg is Execute || msg is Close
     ensures lifecycle_post(s, t, msg, id)
 {
     broadcast use cw3_axioms;
@@ -648,22 +683,6 @@ pub proof fn lemma_lifecycle_step(s: Raw, t: Raw, w: int, sender: Addr, funds: S
     let p = prop_of(s, id)->Some_0;
     assert(prop_inv(s, id, p));
     match msg {
-        ExecuteMsg::Propose { title, description, msgs, latest } => {
-            let nid = (count(s) + 1) as u64;
-            assert(u64_unkb(u64_kb(nid)) != u64_unkb(u64_kb(id)));
-            assert(unpath(pkey(id)) != unpath(pkey(nid)) && unpath(pkey(id)) != unpath(count_key()) && unpath(pkey(id)) != unpath(bkey(nid, sender@)));
-        }
-        ExecuteMsg::Vote { proposal_id, vote } => {
-            let wt = choose|wt: u64| #![auto] wt >= 1 && snapshot_weight(s, w, proposal_id, sender@, wt)
-                && tally_no_overflow(prop_of(s, proposal_id)->Some_0.votes, vote, wt) && t == vote_result(s, proposal_id, sender@, vote, wt, b);
-            lemma_vote_preserves(s, proposal_id, sender@, vote, wt, b);
-            if proposal_id != id {
-                assert(u64_unkb(u64_kb(proposal_id)) != u64_unkb(u64_kb(id)));
-                assert(unpath(pkey(id)) != unpath(pkey(proposal_id)) && unpath(pkey(id)) != unpath(bkey(proposal_id, sender@)));
-            } else {
-                lemma_status_sticky(Proposal { votes: add_vote_spec(p.votes, vote, wt), ..p }, b);
-            }
-        }
         ExecuteMsg::Execute { proposal_id } => {
             lemma_prop_write(s, proposal_id, Proposal { status: Status::Executed, ..prop_of(s, proposal_id)->Some_0 });
             if proposal_id == id { lemma_status_sticky(p, b); }
@@ -671,6 +690,19 @@ pub proof fn lemma_lifecycle_step(s: Raw, t: Raw, w: int, sender: Addr, funds: S
         ExecuteMsg::Close { proposal_id } => {
             lemma_prop_write(s, proposal_id, Proposal { status: Status::Rejected, ..prop_of(s, proposal_id)->Some_0 });
         }
+        _ => {}
+    }
+}
+// serves: C05 C15
+pub proof fn lemma_lifecycle_step(s: Raw, t: Raw, w: int, sender: Addr, funds: Seq<Coin>, b: &BlockInfo, msg: ExecuteMsg, id: u64)
+    requires inv(s), count(s) < u64::MAX, step_msg(s, t, w, sender, funds, b, msg), prop_of(s, id) is Some
+    ensures lifecycle_post(s, t, msg, id)
+{
+    match msg {
+        ExecuteMsg::Propose { .. } => lemma_lifecycle_propose(s, t, w, sender, funds, b, msg, id),
+        ExecuteMsg::Vote { .. } => lemma_lifecycle_vote(s, t, w, sender, funds, b, msg, id),
+        ExecuteMsg::Execute { .. } => lemma_lifecycle_execute_close(s, t, w, sender, funds, b, msg, id),
+        ExecuteMsg::Close { .. } => lemma_lifecycle_execute_close(s, t, w, sender, funds, b, msg, id),
         ExecuteMsg::MemberChangedHook(_) => {}
     }
 }
